@@ -870,9 +870,20 @@ func (w *World) produce(parent *blockRec, slot uint64) (*blockRec, error) {
 	if w.cfg.has("proposer_slashings") && w.rng.Chance(1, 6) {
 		v := w.rng.Intn(w.cfg.Validators)
 		if !w.slashedV[v] && !busy[v] && v != int(proposer) && w.slashable(st, v, epoch) {
+			// the evidence may be old: headers of an earlier slot, signed under the version of THAT epoch
+			hslot := slot
+			if back := uint64(w.rng.Intn(int(3*w.cfg.SPE))); w.rng.Bool() && slot >= w.cfg.baseSlot()+back {
+				hslot = slot - back
+			}
+			if w.epochOf(hslot) < w.epochOf(slot) {
+				w.res.Stat("proposer_slashings_with_old_headers", 1)
+				if common.Epoch(w.epochOf(hslot)) < fork.Epoch && fork.Epoch <= common.Epoch(epoch) {
+					w.res.Stat("probe_proposer_slashing_headers_from_before_the_last_fork", 1)
+				}
+			}
 			mk := func(tag uint64) common.SignedBeaconBlockHeader {
-				h := common.BeaconBlockHeader{Slot: common.Slot(slot), ProposerIndex: common.ValidatorIndex(v), ParentRoot: fnvRoot("ps", tag), StateRoot: fnvRoot("ps-s", tag), BodyRoot: fnvRoot("ps-b", tag)}
-				dom := domainFor(fork, w.gvr, common.DOMAIN_BEACON_PROPOSER, common.Epoch(epoch))
+				h := common.BeaconBlockHeader{Slot: common.Slot(hslot), ProposerIndex: common.ValidatorIndex(v), ParentRoot: fnvRoot("ps", tag), StateRoot: fnvRoot("ps-s", tag), BodyRoot: fnvRoot("ps-b", tag)}
+				dom := domainFor(fork, w.gvr, common.DOMAIN_BEACON_PROPOSER, common.Epoch(w.epochOf(hslot)))
 				return common.SignedBeaconBlockHeader{Message: h, Signature: w.keys.sign(v, signingRoot(h.HashTreeRoot(tree.GetHashFn()), dom))}
 			}
 			ps = append(ps, phase0.ProposerSlashing{SignedHeader1: mk(slot*2 + 1), SignedHeader2: mk(slot*2 + 2)})
